@@ -2098,6 +2098,7 @@ namespace
         size_t pop_frame_count = 0;
         if (target_scope.empty())
         { // Empty just pops
+            context.clear_values();
             context.pop_frame();
             return left;
         }
@@ -2109,6 +2110,7 @@ namespace
                 {
                     for (pop_frame_count++; pop_frame_count != 0; --pop_frame_count)
                     {
+                        context.clear_values();
                         context.pop_frame();
                     }
                     return left;
